@@ -40,7 +40,9 @@ ASSUMPTIONS = [
     "numba, numpy, moptipy are trusted",
     "seeded search: a clean batch is evidence, not proof",
 ]
-FAULT_KINDS = ["cancel:before_first_move", "cancel:mid_run", "draw:i0",
+FAULT_KINDS = ["warm_start:full", "warm_start:wrapper", "via:for_fes",
+               "via:from_starting_point",
+               "cancel:before_first_move", "cancel:mid_run", "draw:i0",
                "draw:jmax", "draw:equal", "draw:full_reversal",
                "draw:adjacent", "draw:repeat", "draw:uniform"]
 PROBES = ["ea_accepted_equal", "ea_accepted_better", "ea_rejected",
@@ -192,10 +194,21 @@ def generate(rng: random.Random, batch: dict) -> dict:
             stop = n_moves + 1
         doc.update({"start_perm": perm, "draws": draws,
                     "stop_after_polls": stop})
+        if rng.random() < 0.3:
+            # the process already knows a best solution (the algorithm is
+            # used as a local search / after another algorithm); "wrapper"
+            # mimics moptipy's sub-process wrappers, which forward only
+            # get_copy_of_best_x
+            wt = list(range(n))
+            rng.shuffle(wt)
+            doc["warm"] = {"tour": wt,
+                           "y_copy": rng.choice(["full", "wrapper"])}
     else:
         doc.update({"seed": rng.getrandbits(48),
                     "max_fes": rng.choice([1, 2, 3, 10, 50,
-                                           batch["max_moves"]])})
+                                           batch["max_moves"]]),
+                    "via": rng.choice(["plain", "plain", "for_fes",
+                                       "from_starting_point"])})
     return doc
 
 
@@ -233,6 +246,16 @@ def directed(tier: str) -> list:
                      "mode": "real", "seed": 12345, "max_fes": 100})
         docs.append({"algo": algo, "inst": {"matrix": m5}, "mode": "real",
                      "seed": 7, "max_fes": 60})
+        for via in ("for_fes", "from_starting_point"):
+            docs.append({"algo": algo, "inst": {"resource": "gr17"},
+                         "mode": "real", "seed": 99, "max_fes": 80,
+                         "via": via})
+        for yc in ("full", "wrapper"):
+            docs.append({"algo": algo, "inst": {"matrix": m5},
+                         "mode": "stub", "start_perm": [2, 0, 4, 1, 3],
+                         "draws": [0, 1, 1, 3, 3, 0, 2, 2, 0, 3, 3, 1],
+                         "stop_after_polls": 99,
+                         "warm": {"tour": [4, 3, 2, 1, 0], "y_copy": yc}})
     return docs
 
 
@@ -411,9 +434,61 @@ def execute(doc: dict) -> dict:
             def shuffle(self, x):
                 x[:] = start
 
-        class SimProcess:
+        from moptipy.api.process import Process as _MoptipyProcess
+        warm = doc.get("warm")
+        best = {"x": None, "f": None}
+        if warm is not None:
+            wt = _norm_perm(warm["tour"], n)
+            best["x"], best["f"] = wt, orc.tour_length(matrix, wt)
+            core.bump(res["faults"], "warm_start:" + warm["y_copy"])
+
+        def note_best(xs, f):
+            if best["f"] is None or f < best["f"]:
+                best["x"], best["f"] = list(xs), f
+
+        class SimProcess(_MoptipyProcess):
+            """Everything the Process API offers, backed by the simulator."""
+
             def get_random(self):
                 return SimRandom()
+
+            def has_best(self):
+                return best["f"] is not None
+
+            def get_best_f(self):
+                if best["f"] is None:
+                    raise ValueError("no best solution yet")
+                return best["f"]
+
+            def get_copy_of_best_x(self, x):
+                x[:] = best["x"]
+
+            def get_copy_of_best_y(self, y):
+                # real processes copy the best tour; moptipy's sub-process
+                # wrappers inherit the empty base method
+                if warm is None or warm["y_copy"] == "full":
+                    y[:] = best["x"]
+
+            def get_consumed_fes(self):
+                return state["handovers"] + 1
+
+            def get_max_fes(self):
+                return None
+
+            def get_max_time_millis(self):
+                return None
+
+            def get_consumed_time_millis(self):
+                return state["polls"]
+
+            def get_last_improvement_fe(self):
+                return 1
+
+            def has_log(self):
+                return False
+
+            def terminate(self):
+                state["polls"] = 10 ** 12
 
             def create(self):
                 return space.create()
@@ -427,10 +502,13 @@ def execute(doc: dict) -> dict:
                 val = orc.tour_length(matrix, xs)
                 state["cur"], state["cur_len"] = xs, val
                 res["events"].append(["eval", val])
+                note_best(xs, val)
                 return val
 
             def register(self, x, y):
                 on_register(x, y)
+                if state["cur_len"] is not None:
+                    note_best(state["cur"], state["cur_len"])
 
             def should_terminate(self):
                 state["polls"] += 1
@@ -505,9 +583,35 @@ def execute(doc: dict) -> dict:
                 on_register(x, y)
                 return self._p.register(x, y)
 
+        via = doc.get("via", "plain")
+        if int(doc["max_fes"]) < 3:
+            via = "plain"   # the warm-up evaluation would eat the budget
+        if via != "plain":
+            core.bump(res["faults"], f"via:{via}")
+
         class Spy(Algorithm):
             def solve(self, process):
-                algo.solve(Proxy(process))
+                if via == "plain":
+                    algo.solve(Proxy(process))
+                    return
+                # the algorithm is applied as a local search to a process
+                # that already knows a best solution, through moptipy's
+                # real sub-process wrappers (as a memetic algorithm does)
+                from moptipy.api.subprocesses import (for_fes,
+                                                      from_starting_point)
+                x0 = process.create()
+                x0[:] = range(n)
+                process.get_random().shuffle(x0)
+                f0 = process.evaluate(x0)
+                state["cur"], state["cur_len"] = None, None
+                left = max(1, int(doc["max_fes"]) - 1)
+                if via == "for_fes":
+                    with for_fes(process, left) as sub:
+                        algo.solve(Proxy(sub))
+                else:
+                    with from_starting_point(process, x0, f0) as s1:
+                        with for_fes(s1, left) as sub:
+                            algo.solve(Proxy(sub))
 
             def __str__(self):
                 return str(algo)
